@@ -58,6 +58,11 @@ CLAIMED = {
             "sequences, the extended alphabet, all bad-payload kinds and a client FIN/RST at a tape-chosen point. The enumeration "
             "decides; the simulator carries the live connection and the closure timing.",
             "a trailers-only response (http.response.trailers before any start on HTTP/2) is a deliberate hypercorn extension and is not judged; leading/trailing whitespace in header bytes is stripped rather than rejected"),
+    "C13": ("5/C13", "Complete enumeration of every two-way split point of twelve openings (plain, pipelined, prior-knowledge preface, "
+            "TLS-stub ALPN h2 / http/1.1 / none, five h2c upgrade variants, WebSocket upgrade) on both workers, each followed by "
+            "traffic directly behind the opening bytes, plus seeded k-way / byte-wise splits; scope version/type, the protocol the "
+            "client parser succeeds with and exactly-once answers are compared with the table for the opening.",
+            "TLS record processing and ALPN negotiation are stubbed at selected_alpn_protocol(); WebSocket clients wait for the handshake response before sending frames (RFC 6455 4.1)"),
 }
 
 NOT_APPLICABLE = {
